@@ -389,10 +389,17 @@ def _any_model(eng, pc):
     from vf.symx import _solve
 
     goal = list(pc) + list(eng.axioms)
+    r, m, _ = _solve(goal, 2000)
+    if r == z3.sat:
+        return m
+    if r == z3.unsat:
+        return None
     try:
         r, m, _ = _solve(goal, 5000, tactic="qfnra-nlsat")
         if r == z3.sat:
             return m
+        if r == z3.unsat:
+            return None
     except z3.Z3Exception:
         pass
     r, m, _ = _solve(goal, 20000)
